@@ -19,7 +19,5 @@ run_one() {
   git -C /repo worktree remove --force $WT; rm -rf $WT
 }
 export -f run_one
-printf "%s\n" "$@" | xargs -P 4 -I{} bash -c 'run_one {}'
-# drop the fact caches of the scratch trees (keep the one of /repo's current tree)
-./check C02 >/dev/null 2>&1
-H=$(ls -t /verif/.work/facts | head -1); for d in /verif/.work/facts/*; do [ "$(basename $d)" = "$H" ] || rm -rf $d; done
+printf "%s\n" "$@" | xargs -P ${NPAR:-4} -I{} bash -c 'run_one {}'
+# (fact caches of the scratch trees stay: run tools/prune_cache.sh when no other regression is running)
